@@ -101,17 +101,17 @@ def _ms(rows):
     return rows_multiset(rows)
 
 
-def _compare(table, flt, api, verify, columns=None):
+def _compare(table, flt, api, verify, columns=None, container=None):
     """returns (pruned_rows|exc, unpruned_rows|exc, nskipped)"""
     log = []
     try:
         with spy_pruning(log):
-            a = run_read(table, api, flt, columns, verify)
+            a = run_read(table, api, flt, columns, verify, container=container)
     except Exception as e:  # noqa
         a = e
     try:
         with no_pruning():
-            b = run_read(table, api, flt, columns, verify)
+            b = run_read(table, api, flt, columns, verify, container=container)
     except Exception as e:  # noqa
         b = e
     skipped = sum(len(t) - len(k) for t, k in log)
@@ -142,21 +142,25 @@ def run_exhaustive(task):
             if idx % task["nshard"] != task["shard"]:
                 continue
             flt = {"x": cond}
-            a, b, skipped = _compare(t, flt, "scan", None)
-            key = f"{typ}|{jsonable(cond)}"
-            res.case(key=key, nontrivial=skipped > 0, labels=[f"exh:{typ}", "skipped>0" if skipped else "skipped=0"],
-                     sample={"type": typ, "filter": flt, "files": len(msets), "skipped": skipped} if skipped else None)
-            if isinstance(a, Exception) or isinstance(b, Exception):
-                res.labels["raises"] += 1
-                if isinstance(a, Exception) != isinstance(b, Exception):
-                    res.labels["raise-mismatch(not flagged)"] += 1
-                continue
-            if _ms(a) != _ms(b):
-                lost = _ms(b) - _ms(a)
-                fids = sorted({dict(r)["fid"][1] for r in lost})[:3]
-                files = [[vals[i] for i in msets[f]] for f in fids]
-                res.violation(_bucket(cond, typ), f"type={typ} filter={flt!r}: pruned scan lost {sum(lost.values())} row(s); e.g. files {files!r}",
-                              {"kind": "exh", "type": typ, "filter": flt, "files": files})
+            # value sets of in / not_in are also handed over as one-shot iterators (a generator through scan, an iterator through the
+            # streaming API, which prunes before it compiles the row filter)
+            runs = [("list", "scan")] + ([("gen", "scan"), ("iter", "batches_big")] if cond[0] in ("in", "not_in") and cond[1] else [])
+            for cont, api in runs:
+                a, b, skipped = _compare(t, flt, api, None, container=cont)
+                key = f"{typ}|{jsonable(cond)}" + ("" if cont == "list" else f"|{cont}|{api}")
+                res.case(key=key, nontrivial=skipped > 0, labels=[f"exh:{typ}", "skipped>0" if skipped else "skipped=0"] + ([f"in-container:{cont}"] if cont != "list" else []),
+                         sample={"type": typ, "filter": flt, "files": len(msets), "skipped": skipped} if skipped and cont == "list" else None)
+                if isinstance(a, Exception) or isinstance(b, Exception):
+                    res.labels["raises"] += 1
+                    if isinstance(a, Exception) != isinstance(b, Exception):
+                        res.labels["raise-mismatch(not flagged)"] += 1
+                    continue
+                if _ms(a) != _ms(b):
+                    lost = _ms(b) - _ms(a)
+                    fids = sorted({dict(r)["fid"][1] for r in lost})[:3]
+                    files = [[vals[i] for i in msets[f]] for f in fids]
+                    res.violation(_bucket(cond, typ) + ("" if cont == "list" else "/one-shot-value-set"), f"type={typ} filter={flt!r} (value set as {cont}, via {api}): pruned scan lost {sum(lost.values())} row(s); e.g. files {files!r}",
+                                  {"kind": "exh", "type": typ, "filter": flt, "files": files, "container": cont, "api": api})
     res.extra["exhaustive_subdomain"] = True
     return res
 
@@ -235,7 +239,9 @@ def rand_case(draw):
             # the handle that is read through: the creating one, a fresh load_table, or create_table() on the existing table with a schema that
             # DESCRIBES it (same names / types) but numbers its fields differently (another application's copy of the schema) - the persisted
             # schema stays authoritative, so the answers must not change; 'last_via' = the last file is appended through that handle
-            "handle": draw(st.sampled_from(["same", "same", "load", "renumbered", "renumbered"])), "last_via": draw(st.booleans())}
+            "handle": draw(st.sampled_from(["same", "same", "load", "renumbered", "renumbered"])), "last_via": draw(st.booleans()),
+            # container type of in / not_in value sets (one-shot iterators are rebuilt for every call)
+            "container": draw(st.sampled_from(["list", "list", "list", "tuple", "set", "gen", "map", "iter", "dictkeys", "deque", "range"]))}
 
 
 def _other_handle(path, fields, how):
@@ -280,7 +286,9 @@ def check_rand(case):
             t = _other_handle(d + "/t", fields, case["handle"])
             out["labels"].append(f"handle:{case['handle']}")
         flt = case["filter"]
-        a, b, skipped = _compare(t, flt, case["api"], case["verify"], case["columns"])
+        a, b, skipped = _compare(t, flt, case["api"], case["verify"], case["columns"], container=case.get("container"))
+        if case.get("container") not in (None, "list") and any(isinstance(c_, tuple) and str(c_[0]).lower() in tbl.IN_OPS for c_ in flt.values()):
+            out["labels"].append(f"in-container:{case['container']}")
         out["nontrivial"] = skipped > 0
         out["labels"].append("skipped>0" if skipped else "skipped=0")
         for f in case["fields"]:
@@ -381,9 +389,10 @@ def replay(case):
                 setup_append(t, [{"x": v, "fid": fid} for v in vals])
             flt = {k: (tuple(v) if isinstance(v, list) and len(v) == 2 and isinstance(v[0], str) else v) for k, v in case["filter"].items()}
             flt = {k: ((v[0], tuple(v[1])) if isinstance(v, tuple) and v[0] == "between" else v) for k, v in flt.items()}
-            a, b, _ = _compare(t, flt, "scan", None)
+            cont = case.get("container", "list")
+            a, b, _ = _compare(t, flt, case.get("api", "scan"), None, container=cont)
             if not isinstance(a, Exception) and not isinstance(b, Exception) and _ms(a) != _ms(b):
-                vios.append({"bucket": _bucket(next(iter(flt.values())), typ), "what": f"pruned {len(a)} vs unpruned {len(b)}"})
+                vios.append({"bucket": _bucket(next(iter(flt.values())), typ) + ("" if cont == "list" else "/one-shot-value-set"), "what": f"pruned {len(a)} vs unpruned {len(b)}"})
         return vios
     fix = lambda flt: {k: ((v[0], tuple(v[1]) if v[0] == "between" else v[1]) if isinstance(v, list) and len(v) == 2 and isinstance(v[0], str) else v) for k, v in flt.items()}
     if case["kind"] == "rand":
